@@ -47,6 +47,9 @@ CLAIMED['C03'] = ('other', 'bounded symbolic execution: on every path of functio
 CLAIMED['C04'] = ('other', 'bounded symbolic execution of one inductive step of the stateful interface from an arbitrary invariant-satisfying pre-state (symbolic current state, memo absent or computed from it): reset / step / reads are compared with the functional interface on an equal copy with the same draws; the memo is invalidated by reset and step, computed at most once per state, repeated reads return the same object and draw nothing; the invariant "memo is None or belongs to the current state" is preserved, which covers all histories and read patterns by induction; OuterEnv delegates and converts exactly the inner state/observation',
                   'trusts z3, the proxy layer, the stubs; the observation function is wrapped to draw once per computation so that recomputation is observable', 'DESIGN.md §5 C04')
 
+CLAIMED['C02'] = ('other', 'partial scope (DESIGN.md C02): bounded symbolic execution decides (1) rng threading - with the library generator replaced by a failing object and the global numpy/python generators fingerprinted, every path of every stochastic built-in uses only the generator it was given, composites forward the same generator object, GridWorld hands its own generator to reset/transition/observation; (2) order independence of set-valued reset parameters as a 2-safety property over symbolic permutations and symbolic draws; (3) determinism given the draws with the debug flag flipped. Cross-process equality and interleaving of live environments are only sampled by concrete side checks, which the level does not rest on',
+                  'trusts z3, the proxy layer, SymRng/ReplayRng/OrderedSetStub; numpy default_rng(seed) itself is trusted to be deterministic', 'DESIGN.md §5 C02')
+
 NOT_APPLICABLE = {
     'C19': 'floating-point trigonometric ray kernel (sin/cos/arctan2 via libm/numpy, round-to-nearest of accumulated float steps): no SMT theory for the transcendental part, the only FP-expressible lemma timed out (300 s) on z3 and cvc5, and the remaining inputs form a small finite domain a solver would merely enumerate; see DESIGN.md §5 C19',
 }
